@@ -1,7 +1,7 @@
 (* Line-oriented driver around the extracted models.
    input : <command> <arg> ...   args: decimal integers or hex byte strings ("-" = empty)
    output: one line per input line *)
-open Model
+open C14
 
 let rec pos_of_int n = if n = 1 then XH else if n land 1 = 0 then XO (pos_of_int (n lsr 1)) else XI (pos_of_int (n lsr 1))
 let z_of_int n = if n = 0 then Z0 else if n > 0 then Zpos (pos_of_int n) else Zneg (pos_of_int (-n))
